@@ -1,7 +1,8 @@
 (** C13 — Connection handshake safety and version negotiation.
     Statements only; proofs are in Handshake/VersionFacts.v, Handshake/ModelThms.v, Handshake/WorldFacts.v. *)
 From IBC Require Import Lib.Bytes Lib.Dec Core.Height Handshake.Version Handshake.VersionFacts Handshake.Types
-     Handshake.Model Handshake.ModelFacts Handshake.ModelThms Handshake.World Handshake.WorldFacts.
+     Handshake.Model Handshake.ModelFacts Handshake.ModelThms Handshake.World Handshake.WorldFacts
+     Handshake.WorldFacts2.
 Local Open Scope N_scope.
 
 (** * version negotiation, for all lists (duplicates, empty feature sets, empty lists) *)
@@ -194,6 +195,41 @@ Theorem C13_world_invariant ops w :
   Inv w -> wcounters_below w (List.length ops) -> Inv (wrun w ops).
 Proof. exact (wrun_inv ops w). Qed.
 Print Assumptions C13_world_invariant.
+
+(** two chains: every TRYOPEN or OPEN channel end sits on an OPEN connection with exactly one negotiated
+    version that lists the channel's ordering — also for ends opened by ChanOpenAck, where the code does
+    not re-check (it follows from the counterparty's ChanOpenTry check and the equal version lists of
+    the two connection ends).  [Inv2] is [Inv] plus this statement for the current state and every
+    recorded snapshot, plus "09-localhost is not a tendermint client". *)
+Theorem C13_world_invariant2 ops w :
+  Inv2 w -> wcounters_below w (List.length ops) -> Inv2 (wrun w ops).
+Proof. exact (wrun_inv2 ops w). Qed.
+Print Assumptions C13_world_invariant2.
+
+Theorem C13_genesis_invariant2 ha reva cla hb revb clb :
+  alookup bytes_eqb localhost_client cla = None -> alookup bytes_eqb localhost_client clb = None ->
+  Inv2 (init_world genesis_chain ha reva cla genesis_chain hb revb clb).
+Proof. exact (genesis_inv2 ha reva cla hb revb clb). Qed.
+Print Assumptions C13_genesis_invariant2.
+
+Theorem C13_open_channel_connection_supports_ordering w p c e :
+  Inv2 w -> get_chan (w_st (wa w)) p c = Some e -> ch_state e = STryOpen \/ ch_state e = SOpen ->
+  exists hop rest conn v,
+    ch_hops e = hop :: rest /\ get_conn (w_st (wa w)) hop = Some conn /\ c_state conn = COpen /\
+    c_versions conn = [v] /\ In (order_string (ch_order e)) (v_feats v).
+Proof. exact (open_channel_connection_supports_ordering w p c e). Qed.
+Print Assumptions C13_open_channel_connection_supports_ordering.
+
+(** with an arbitrary (dishonest) oracle the same statement fails on one chain: an INIT connection
+    offering both orderings, an ORDERED channel INIT on it, then ConnOpenAck with a counterparty-selected
+    version that only lists UNORDERED, then ChanOpenAck *)
+Theorem C13_open_channel_connection_supports_ordering_single_chain_refuted :
+  exists (e : Env) (tr : list Msg) (p c hop : bytes) (ch : ChanEnd) (conn : ConnEnd) (v : Version),
+    let s := fold_left (step e) tr genesis_chain in
+    get_chan s p c = Some ch /\ ch_state ch = SOpen /\ ch_hops ch = [hop] /\ get_conn s hop = Some conn /\
+    c_versions conn = [v] /\ ~ In (order_string (ch_order ch)) (v_feats v).
+Proof. exact single_chain_support_refuted. Qed.
+Print Assumptions C13_open_channel_connection_supports_ordering_single_chain_refuted.
 
 (** non-vacuity *)
 Example C13_nonvacuous :
